@@ -77,11 +77,7 @@ def opTxn (op : String) (a : List String) (st : DrvState) : Option (DrvState × 
   | "txn.load", [id, snap, lastSynced, now, cutoff] => do
     let i ← st.getEnv id
     let snap ← parseSnap snap
-    let ls ← (match lastSynced with
-      | "T" => some i.env.lastTxn
-      | "T-1" => some (i.env.lastTxn - 1)
-      | "T+1" => some (i.env.lastTxn + 1)
-      | s => natArg s)
+    let ls ← relTxn i lastSynced
     match loadOnce i.cfg i.env snap ls (← natArg now) (← natArg cutoff) with
     | .error e => pure (st, s!"err {e.cls}")
     | .ok r => pure (st.setEnv id { i with env := r.env },
@@ -107,6 +103,51 @@ def opTxn (op : String) (a : List String) (st : DrvState) : Option (DrvState × 
     | .ok w' =>
       let e := commit i.env w'
       pure (st.setEnv id { i with env := e }, s!"ok T{e.lastTxn}")
+  -- property ops: the same transitions; the predicates are theorems on this side
+  | "prop.c18.load", [id, snap, lastSynced, now, cutoff] => do
+    let i ← st.getEnv id
+    let snap ← parseSnap snap
+    let ls ← relTxn i lastSynced
+    match loadOnce i.cfg i.env snap ls (← natArg now) (← natArg cutoff) with
+    | .error _ => pure (st, "ok refused")
+    | .ok r => pure (st.setEnv id { i with env := r.env }, "ok applied")
+  | "prop.c11.load", [id, snap, lastSynced, now, cutoff] => do
+    let i ← st.getEnv id
+    if i.cfg.native then none else
+    let snap ← parseSnap snap
+    let ls ← relTxn i lastSynced
+    match loadOnce i.cfg i.env snap ls (← natArg now) (← natArg cutoff) with
+    | .error _ => pure (st, "ok refused")
+    | .ok r => pure (st.setEnv id { i with env := r.env }, "ok mirrored")
+  | "prop.c10.reload", [id, snap, now1, now2] => do
+    let i ← st.getEnv id
+    let snap ← parseSnap snap
+    match loadOnce i.cfg i.env snap i.env.lastTxn (← natArg now1) 0 with
+    | .error _ => pure (st, "ok refused")
+    | .ok r1 =>
+      let dup := r1.env.dbis.any fun d => !isPrivate d.name && isDupSort d.flags
+      match loadOnce i.cfg r1.env snap r1.txnID (← natArg now2) 0 with
+      | .error _ => pure (st.setEnv id { i with env := r1.env }, "FAIL second-load-failed")
+      | .ok r2 =>
+        let st' := st.setEnv id { i with env := r2.env }
+        if r2.localChanged then pure (st', "FAIL no-op-merge-reported-local-change")
+        else if dup then
+          (if r2.env.dbis = r1.env.dbis ∧ r2.txnID = r2.env.lastTxn then pure (st', "ok noop-dupsort")
+           else pure (st', "FAIL no-op-merge-changed-content"))
+        else if r2.env = r1.env ∧ r2.txnID = r1.txnID then pure (st', "ok noop")
+        else pure (st', "FAIL no-op-merge-wrote")
+  | "prop.c06.send", [id, now, cutoff] => do
+    let i ← st.getEnv id
+    match sendOnce i.cfg i.env (← natArg now) (← natArg cutoff) with
+    | .error e => pure (st, s!"ok refused {e.cls}")
+    | .ok r => pure (st.setEnv id { i with env := r.env }, "ok complete")
   | _, _ => none
+where
+  relTxn (i : Inst) (s : String) : Option Nat :=
+    match s with
+    | "T" => some i.env.lastTxn
+    | "T-1" => some (i.env.lastTxn - 1)
+    | "T+1" => some (i.env.lastTxn + 1)
+    | s => natArg s
 
 end Ls.Drv
